@@ -37,7 +37,9 @@ func NewTsBuilder(w *parser.Walker) *TsBuilder {
 
 func (b *TsBuilder) buildConstPart() {
 	b.ConstPart = "// const part \n"
-	for _, identifier := range b.vnode.GetIdsymtabl() {
+	idsymtabl := b.vnode.GetIdsymtabl()
+	for _, name := range parser.SortedIdNames(idsymtabl) {
+		identifier := idsymtabl[name]
 		if identifier.IDTyp == parser.TERMID &&
 			!parser.TestPrefix(identifier.Name) {
 			b.ConstPart += fmt.Sprintf("const %s = %d\n", identifier.Name, identifier.Value)
